@@ -875,35 +875,18 @@ impl StorageEngine {
                     if len == 0 {
                         Vec::new()
                     } else {
-                        let start_idx = if start < 0 { 
-                            (len as isize + start).max(0) as usize
-                        } else {
-                            start as usize
-                        };
-                        
-                        let stop_idx = if stop < 0 {
-                            (len as isize + stop).max(0) as usize
-                        } else {
-                            stop as usize
-                        };
-                        
-                        if reverse {
-                            let real_start = len.saturating_sub(1).saturating_sub(stop_idx.min(len.saturating_sub(1)));
-                            let real_stop = len.saturating_sub(1).saturating_sub(start_idx.min(len.saturating_sub(1)));
-                            
-                            let range = skiplist.range_by_rank(real_start, real_stop);
-                            let mut items = range.items;
-                            items.reverse();
-                            items
-                        } else {
-                            if start_idx >= len || start_idx > stop_idx {
-                                Vec::new()
-                            } else {
-                                let start_idx = start_idx.min(len - 1);
-                                let stop_idx = stop_idx.min(len - 1);
-                                
-                                let range = skiplist.range_by_rank(start_idx, stop_idx);
-                                range.items
+                        match normalize_index_range(len, start, stop) {
+                            None => Vec::new(),
+                            Some((start_idx, stop_idx)) => {
+                                if reverse {
+                                    // Ranks count from the highest score
+                                    let range = skiplist.range_by_rank(len - 1 - stop_idx, len - 1 - start_idx);
+                                    let mut items = range.items;
+                                    items.reverse();
+                                    items
+                                } else {
+                                    skiplist.range_by_rank(start_idx, stop_idx).items
+                                }
                             }
                         }
                     }
